@@ -267,7 +267,18 @@ class Matcher:
         if op in (C.ASSERT, C.ASSERT_NOT):
             direction, sub = av
             if direction != 1:
-                raise Unsupported("look-behind assertion")
+                # look-behind of exactly one character (lark's ESCAPED_STRING uses (?<!\\)): a condition on the previous character
+                items = list(sub)
+                if len(items) != 1 or items[0][0] not in (C.LITERAL, C.NOT_LITERAL, C.IN):
+                    raise Unsupported("look-behind assertion wider than one character")
+                o, a = items[0]
+                if i >= 1:
+                    prev = s.c[i - 1]
+                    cond = (prev == a) if o is C.LITERAL else (prev != a) if o is C.NOT_LITERAL else in_class(prev, a)
+                else:
+                    cond = z3.BoolVal(False)
+                ok, end = nxt(i)
+                return (z3.And(cond if op is C.ASSERT else z3.Not(cond), ok), end)
             # look-ahead: does the sub-pattern match at i (any way)?  the main match then continues from i itself
             ok_sub, _ = self.seq(self._t(sub), 0, i, _Cont(lambda j: (z3.BoolVal(True), z3.IntVal(j))))
             ok, end = nxt(i)
